@@ -35,9 +35,9 @@ def run_demo(wt, demo, timeout=600):
         shutil.rmtree(d, ignore_errors=True)
 
 
-def confirm(seed_dir):
+def confirm(seed_dir, name=None):
     seed_dir = os.path.abspath(seed_dir)
-    name = '-'.join(seed_dir.rstrip('/').split('/')[-2:])
+    name = name or '-'.join(seed_dir.rstrip('/').split('/')[-2:])
     wt = f'/tmp/cw/{name}'
     sh(f'git -C /repo worktree remove --force {wt}')
     os.makedirs('/tmp/cw', exist_ok=True)
@@ -143,7 +143,7 @@ def checkall(tier='quick', extra=None):
 if __name__ == '__main__':
     cmd = sys.argv[1]
     if cmd == 'confirm':
-        print(json.dumps(confirm(sys.argv[2]), indent=1))
+        print(json.dumps(confirm(sys.argv[2], sys.argv[3] if len(sys.argv) > 3 else None), indent=1))
     elif cmd == 'check':
         print(json.dumps(check(sys.argv[2], sys.argv[3:] or None), indent=1))
     elif cmd == 'checkall':
